@@ -19,7 +19,7 @@ import (
 // MConnection flushes its write buffer through a 100 ms throttle timer, so one case costs about
 // 0.1 s of wall time however little it sends; the case counts of this leg are sized for that.
 
-const mconnStall = 25 * time.Second // no receive / error / sender progress at all for this long
+const mconnStall = 60 * time.Second // no receive / error / sender progress at all for this long
 
 type addrConn struct {
 	net.Conn
